@@ -57,7 +57,8 @@ impl C15 {
         if let Some(v) = area_invariants(&areas) {
             return fail(col, "areas-overlap", v);
         }
-        for ph in phdrs.iter().filter(|p| p.p_type == elfgen::PT_LOAD && p.vaddr != 0) {
+        // an empty segment (p_memsz = 0) has no byte whose content or permission could be observed
+        for ph in phdrs.iter().filter(|p| p.p_type == elfgen::PT_LOAD && p.vaddr != 0 && p.memsz != 0) {
             let Some(a) = areas.iter().find(|a| ph.vaddr >= a.start && (ph.vaddr as u128 + ph.memsz as u128) <= a.start as u128 + a.length as u128) else {
                 return fail(col, "segment-not-mapped", format!("segment vaddr={:#x} memsz={:#x} is not contained in one area", ph.vaddr, ph.memsz));
             };
